@@ -124,10 +124,20 @@ def parse_single_constraint(
                 f"Could not parse version constraint: {constraint}"
             ) from e
 
-        if version.release.precision == 2:
+        precision = version.release.precision
+        if precision == 2:
             high = version.stable.next_major()
-        else:
+        elif precision <= 3:
             high = version.stable.next_minor()
+        else:
+            # PEP 440 compatible release: "~=V.N" is ">=V.N, ==V.*", so the upper
+            # bound bumps the second to last release segment (~=1.2.3.4 -> <1.2.4.0)
+            from poetry.core.version.pep440 import Release
+
+            parts = list(version.release.to_parts())
+            parts[-2] += 1
+            parts[-1] = 0
+            high = Version(epoch=version.epoch, release=Release.from_parts(*parts))
 
         return VersionRange(version, high, include_min=True)
 
